@@ -345,6 +345,19 @@ class SccContext:
       elif control_code is SccControlCode.RU4:
         self.roll_up_depth = 4
 
+      if self.has_active_caption() \
+          and self.active_caption.get_caption_style() is SccCaptionStyle.RollUp \
+          and len(self.active_caption.get_lines()) > self.roll_up_depth:
+        # Fewer rows are displayed from now on: keep the most recent ones
+        cursor = self.active_caption.get_cursor()
+        kept_lines = self.active_caption.get_last_caption_lines(self.roll_up_depth)
+
+        self.push_active_caption_to_model(time_code, False)
+
+        self.new_active_caption(time_code, SccCaptionStyle.RollUp)
+        self.active_caption.set_lines(kept_lines)
+        self.active_caption.set_cursor_at(cursor[0], cursor[1])
+
       if not self.has_active_caption():
         # If there is currently no active caption, initialize an empty new paragraph
         self.new_active_caption(time_code, SccCaptionStyle.RollUp)
